@@ -46,6 +46,51 @@ def kinds(cols):
     return ",".join(k(t) for t in cols)
 
 
+def join_part(rep, tier, cases, wd):
+    """The same predicates as the ON condition of l(c0) JOIN r(c1), for the four join kinds (spec/Trace_JoinFilter.tla).
+    A seeded subset of the cases (the join is built for 4 kinds x 5 embeddings)."""
+    import copy
+    import random
+    rng = random.Random(C.seed() + 10)
+    two = [c for c in cases if c["cols"][0]["k"] != "opt" or True]
+    sub = rng.sample(two, min(len(two), 600 if tier == "quick" else 6000))
+    obs = C.qv_sharded(["dt-joinfilter"], {"n": 5}, sub, wd, shards=12, timeout=6000)
+    recs = [{"case": o["case"], "emb": o["emb"], "kind": o["kind"], "join": o["join"] if o["join"] == "ok" else "panic",
+             "l_nullable": bool(o["l_nullable"]), "r_nullable": bool(o["r_nullable"]),
+             "rows": [{"pred": x["pred"], "l_in": bool(x["l_in"]), "r_in": bool(x["r_in"])} for x in o["rows"]] or [{"pred": "none", "l_in": True, "r_in": True}]} for o in obs]
+    tr, fails, _ = C.validate_trace_chunked("Trace_JoinFilter", "Trace_JoinFilter.cfg", recs, wd, "c10_join", chunk=12000, parallel=5, timeout=6000, heap="6g")
+    failing_embs = {}
+    for i, judge in fails:
+        failing_embs.setdefault((obs[i - 1]["case"], obs[i - 1]["kind"], judge), set()).add(obs[i - 1]["emb"])
+    for i, judge in fails:
+        o = obs[i - 1]
+        c = sub[o["case"]]
+        xa = mixed_atoms(c["pred"], c["cols"])
+        if failing_embs[(o["case"], o["kind"], judge)] == {"p53"} and xa:
+            key = f"on/{judge}/{o['kind']}/p53-mixed-int-float/{kinds(c['cols'])}"
+        else:
+            key = f"on/{judge}/{o['kind']}/{pname(c['pred'])}/{kinds(c['cols'])}"
+        bad = [x for x in o["rows"] if (x["pred"] == "true" and not (x["l_in"] and x["r_in"])) or not x["l_in"] or not x["r_in"]][:4]
+        rep.fail(key, f"judge {judge} failed on the ON clause of a {o['kind']} join",
+                 {"engine": "dt-joinfilter", "case": {"pred": c["pred"], "cols": c["cols"], "kind": o["kind"], "embedding": o["emb"], "left_output_type": o.get("l_type"),
+                                                        "right_output_type": o.get("r_type"), "rows": bad, "msg": o.get("msg")}})
+    good = next((x for x in recs if x["join"] == "ok" and x["kind"] == "inner" and any(y["pred"] == "true" for y in x["rows"])), None)
+    st = {}
+    if good:
+        a = copy.deepcopy(good)
+        j = next(k for k, y in enumerate(a["rows"]) if y["pred"] == "true")
+        a["rows"][j]["r_in"] = False
+        b = copy.deepcopy(good); b["kind"] = "left"; b["r_nullable"] = False
+        sp = os.path.join(wd, "selftest_join.ndjson")
+        C.write_ndjson(sp, [a, b])
+        _, f2, _ = C.validate_trace("Trace_JoinFilter", "Trace_JoinFilter.cfg", sp, "c10_join_selftest")
+        st = {"dropped_pair_flagged": (1, "MatchedPairKept") in set(f2), "non_nullable_padded_side_flagged": (2, "NullPaddedSide") in set(f2)}
+    if not st or not all(st.values()):
+        raise C.ToolError(f"binding self-test of Trace_JoinFilter failed: {st}")
+    return {"cases": len(sub), "records": len(recs), "join_kinds": 4, "embeddings": 5,
+            "pairs_where_predicate_true": sum(1 for x in recs for y in x["rows"] if y["pred"] == "true"), "binding_selftest": st, "checker_cmd": tr.cmd if tr else ""}
+
+
 def run(tier, t0):
     thin = 8 if tier == "quick" else 1
     r = C.tlc("MC_Functions", "MC_Functions.cfg", "c10_cases", workers=4, timeout=3000, constants={"Which": '"filter"', "Thin": thin},
@@ -77,6 +122,7 @@ def run(tier, t0):
         rep.fail(key, f"judge {judge} failed",
                  {"engine": "dt-filter", "case": {"pred": c["pred"], "cols": c["cols"], "embedding": o["emb"], "narrowed": o["narrowed"],
                                                     "dropped_rows": [x["row"] for x in o["rows"]]}})
+    join_cov = join_part(rep, tier, cases, wd)
     import copy
     st = {}
     for rec in recs:
@@ -100,6 +146,7 @@ def run(tier, t0):
         "rule": "predicates of spec/ExprCases.tla (comparisons of a column with a literal in both operand orders and with another column, is_null, an arithmetic term the narrowing does not understand; NOT, AND, OR of two atoms) x pairs of column types (intervals, value sets, optional, int/float) enumerated by TLC (quick: a seeded 1/8 sample), under 5 order embeddings, every row of universe points (capped at 64); non-trivial = the predicate is true on some rows and not on others",
         "exhaustive": tier == "thorough", "cases": len(cases), "embeddings": 5,
         "rows_where_predicate_true": sum(1 for rec in recs for x in rec["rows"] if x["pred"] == "true"),
+        "on_clause": join_cov,
         "binding_selftest": st, "failures_by_key": {k: v["count"] for k, v in rep.by_key.items()}, "known_findings_reproduced": known, "checker_cmd": tr.cmd,
     }
     C.write_evidence(PID, tier, "model_checking", coverage,
